@@ -24,6 +24,7 @@ import AdaptixModel.Kinds.Shapes
 import AdaptixProofs.Lemmas.KindsShapes
 import AdaptixProofs.Lemmas.KindsProjections
 import AdaptixProofs.Lemmas.KindsSemantics
+import AdaptixProofs.Lemmas.KindsDeclarable
 
 namespace Adaptix.Kinds.C17
 
@@ -36,6 +37,21 @@ def Exact (k : Kind) (m : LogicalModel) : Bool :=
   | .typedDict => false
   | .sqlalchemy => SAFaithful m
   | _ => true
+
+/-! ## 0. Which logical models a kind supports -/
+
+/-- **`Supported`, made explicit**: the class can be declared and introspected iff the decidable
+    per-kind side conditions of `Declarable` hold. -/
+theorem declarable_iff (k : Kind) (m : LogicalModel) :
+    (shapeOf k m).toOption.isSome = Declarable k m := by
+  cases k
+  · exact declarable_dataclass m
+  · exact declarable_namedTuple m
+  · exact declarable_typedDict m
+  · exact declarable_attrs m
+  · exact declarable_pydantic m
+  · exact declarable_sqlalchemy m
+
 
 /-! ## 1. Shape projections: the heart — every later stage is a function of these -/
 
@@ -231,6 +247,22 @@ theorem kinds_agree_errors {m : LogicalModel} {k : Kind} {s std : Shape}
     exact ⟨er', rfl, this⟩
 
 end
+
+/-- **kinds_agree (load, nested models)**: when the field loaders of the two kinds are *not* the same
+    function — a field whose type is a nested model is loaded into the nested class *of the respective
+    kind* — but fail together and otherwise return `R`-related values (`R` = "field-wise equal"), the
+    two outcomes are `R`-related field by field and the errors are equal.  This is the induction step
+    over the nesting depth: field-wise equality of nested values lifts to the enclosing objects. -/
+theorem kinds_agree_load_nested {D V₁ V₂ : Type} {m : LogicalModel} {k₁ k₂ : Kind} {s₁ s₂ : Shape}
+    (h₁ : shapeOf k₁ m = .ok s₁) (h₂ : shapeOf k₂ m = .ok s₂) (e₁ : Exact k₁ m = true) (e₂ : Exact k₂ m = true)
+    (R : V₁ → V₂ → Prop) (ld₁ : Ty → D → Option V₁) (ld₂ : Ty → D → Option V₂)
+    (lit₁ : Scalar → V₁) (lit₂ : Scalar → V₂) (call₁ : Factory → V₁) (call₂ : Factory → V₂)
+    (hld : ∀ ty d, OptRel R (ld₁ ty d) (ld₂ ty d)) (hlit : ∀ s, R (lit₁ s) (lit₂ s))
+    (hcall : ∀ f, R (call₁ f) (call₂ f)) (nm : String → Option String) (inp : Input D) :
+    Outcome.Rel R (loadModel ld₁ lit₁ call₁ nm s₁.1 inp) (loadModel ld₂ lit₂ call₂ nm s₂.1 inp) := by
+  unfold loadModel
+  rw [(exact_projection h₁ e₁).1, (exact_projection h₂ e₂).1]
+  exact loadSpecs_rel hld hlit hcall nm m.inSpecs inp
 
 /-! ## 3. Dumping: field-wise equal objects → equal data, under every name mapping / omit_default -/
 
